@@ -1000,10 +1000,10 @@ impl Prop for C15 {
     fn lanes(tier: Tier) -> Vec<Lane> {
         vec![
             Lane::new("main", tier.pick(150_000, 2_000_000))
-                .cap(tier.pick(90, 600))
+                .cap(tier.pick(150, 1200))
                 .floor(tier.pick(5_000, 50_000)),
             Lane::new("pipeline", tier.pick(2_500, 25_000))
-                .cap(tier.pick(90, 600))
+                .cap(tier.pick(150, 1200))
                 .floor(tier.pick(300, 3_000)),
         ]
     }
